@@ -84,6 +84,15 @@ Theorem C11_tb_conformance : forall c t0 acts s tr,
 Proof. exact tb_conformance. Qed.
 Print Assumptions C11_tb_conformance.
 
+(* the packet leaves 8*size/peak after its debit when a peak rate is set, else at the debit instant *)
+Theorem C11_tb_departure_instant : forall c t0 acts s tr,
+  0 < rate c -> tb_run c (tb0 true c t0) acts = Some (s, tr) ->
+  forall k t p, nth_error (fwds tr) k = Some (t, p) ->
+    exists d, nth_error (debits tr) k = Some (d, p) /\
+      (peak_on c = None -> t == d) /\ (forall pk, peak_on c = Some pk -> t == d + spacing pk (sz p)).
+Proof. exact tb_departure_instant. Qed.
+Print Assumptions C11_tb_departure_instant.
+
 (* consecutive departures are at least 8*size/peak (of the later packet) apart *)
 Theorem C11_tb_peak_spacing : forall c t0 acts s tr,
   0 < rate c -> tb_run c (tb0 true c t0) acts = Some (s, tr) ->
